@@ -614,7 +614,17 @@ fn main() {
             env.w.set_key(Some(K1));
             let again = env.liveness();
             if !again.is_empty() {
-                vcommon::result::machinery(&format!("cannot restore a live world after a crash: {:?}", again));
+                // a freshly started subject that is not live either: once more, then the subject is what is broken (a
+                // violation has just been recorded above) and the remaining cases cannot be judged: stop here and report
+                env.w.restart_subject(&env.opts);
+                env.start_background_tasks();
+                env.w.set_key(Some(K1));
+                let third = env.liveness();
+                if !third.is_empty() {
+                    res.violation(&format!("not-live-after-a-fresh-start:{}", third.join("+")), &format!("after a crash the subject was started afresh twice and these parts still do not respond: {:?}; the remaining cases were not run", third), desc.clone());
+                    res.cov("stopped_after_unrecoverable_subject", true);
+                    break;
+                }
             }
             let _ = world::take_panics();
         }
